@@ -27,5 +27,5 @@ func main() {
 		"NodeClaimTemplate.ToNodeClaim instance-type requirement = C19.Model.to_nodeclaim_req on lo_slice of the sorted options",
 		"Provisioner.NewScheduler + Scheduler.Solve at 1/4/16 workers: pool of the pod's new NodeClaim = C19.Model.try_schedule over order_by_weight, fed with the real addToNewNodeClaim outcome of every pool alone at every relaxation level",
 	}
-	c.Finish("From KV Require Import C19.Model C19.Check.", "case", "check_all", 700)
+	c.Finish(caseHeader(), "case", "check_all", 500)
 }
